@@ -48,14 +48,16 @@ Definition chk_dump (c : area_rec (T:=float) * yentry (T:=float)) : bool :=
 
 (* (parsed YAML entries of the whole file, regions, per entry CRS facts of the loaded CRS
     (geographic, crs units, factor km, factor m), observed loaded areas) *)
-Definition lcase := (list (yentry (T:=float)) * list Z * list (bool * cu * float * float) * res (list (loaded (T:=float))))%type.
+Definition lcase := (list (yentry (T:=float)) * list Z * list (pentry * (bool * cu * float * float)) * res (list (loaded (T:=float))))%type.
+Fixpoint facts_of (t : list (pentry * (bool * cu * float * float))) (p : pentry) : bool * cu * (cu -> float) :=
+  match t with
+  | [] => (false, Cm, facF 1%float 1%float)
+  | (k, (g, u, fkm, fm)) :: r => if pentry_eqb k p then (g, u, facF fkm fm) else facts_of r p
+  end.
 Definition run_load (c : lcase) : res (list (loaded (T:=float))) :=
-  let '(file, regions, facts, _) := c in
-  load_file F64 (fun i => match nth_error facts (Z.to_nat i) with
-                          | Some (g, u, fkm, fm) => (g, u, facF fkm fm)
-                          | None => (false, Cm, facF 1%float 1%float) end) file regions.
+  let '(file, regions, facts, _) := c in load_file F64 (facts_of facts) file regions.
 Definition loaded_eqb (a b : loaded (T:=float)) : bool :=
-  (l_id a =? l_id b) && (l_desc a =? l_desc b) && (l_crs a =? l_crs b) && outcome_eqb (l_out a) (l_out b).
+  (l_id a =? l_id b) && (l_desc a =? l_desc b) && pentry_eqb (l_proj a) (l_proj b) && outcome_eqb (l_out a) (l_out b).
 Definition chk_load (c : lcase) : bool :=
   let '(_, _, _, obs) := c in
   match run_load c, obs with
